@@ -20,7 +20,7 @@ checks = {
    "trusted: dsim's Barrier/pool models, the four representative value shapes (Z, Zd, S, Sd), harness closures as the only observers of value life-cycles",
    SIM + "seeded schedule search + panic injection (benched / generator, any call index, any thread subset) with a lifecycle-automaton oracle over the recorded history", "§4.C01"),
  "C02": ("exploration",
-   "same engine with an allocation script in every callback phase; oracle A: between a sample's logged start and end timestamps the thread's events are exactly that sample's calls; oracle B (refinement): the allocation figures stored for the sample equal a reference tally folded over the allocator operations the thread logged between those two readings.",
+   "same engine with an allocation script in every callback phase; oracle A: between a sample's logged start and end timestamps the thread's events are exactly that sample's calls (no generation, counter, drop, and no potentially blocking synchronisation); oracle B (refinement): the allocation figures stored for the sample equal a reference tally folded over the allocator operations the thread logged between those two readings; oracle C: a counting global allocator in the check driver reports every allocator request the library itself makes between the two readings.",
    "trusted: program-order level only (instruction-level reordering around the counter read is outside a simulator that replaces the read by a call); the virtual counter hook H5; MockAlloc",
    SIM + "seeded schedule search with scripted allocator operations; event-order oracle + refinement of per-sample allocation figures against a reference tally", "§4.C02"),
  "C03": ("exploration",
@@ -36,15 +36,15 @@ checks = {
    "trusted: f64 figures compared with 1e-9 relative tolerance; glyphs/format of the row are C18/C20 (not applicable)",
    SIM + "scripted clock / allocator / counter histories through the real loop; refinement of Stats against a reference order-statistics model", "§4.C05"),
  "C06": ("exploration",
-   "seeded search over pool histories x schedules x panic subsets x spurious wake-ups, running the real ThreadPool code under the dsim scheduler; oracles over the recorded history: exactly-once per index, thread identity, return-after-all-calls, vector-clock happens-before at return, result slots, frame-liveness audit, spawn conservation. Sampling (evidence, not proof); SC interleavings with an HB audit instead of weak-memory execution.",
+   "seeded search over pool histories x schedules x panic subsets x spurious wake-ups, running the real ThreadPool code under the dsim scheduler; oracles over the recorded history: exactly-once per index, thread identity, return-after-all-calls (also when broadcast unwinds), vector-clock happens-before at return, result slots (result type whose None is not the all-zero pattern), spawn conservation; in-run frame-liveness monitor stated on the caller's stack frames (a thread about to operate on memory of a returned broadcast call's frames is stopped before the operation). Sampling (evidence, not proof); SC interleavings with an HB audit instead of weak-memory execution.",
    "trusted: dsim's models of Mutex / sync_channel(0) / atomics / park-unpark / spawn (documented std semantics only), the C++20 release-sequence rules in the vector-clock audit, preemption only at shim operations and probes",
-   SIM + "seeded schedule search + fault injection (task panics, spurious park wake-ups, starvation) with history oracles and happens-before audit", "§4.C06"),
+   SIM + "seeded schedule search + fault injection (task panics incl. a payload whose destructor panics, spurious park / condvar wake-ups, spurious compare_exchange_weak failures, starvation) with history oracles and happens-before audit", "§4.C06"),
  "C07": ("exploration",
    "same engine, longer growing/shrinking histories; bounded liveness oracle: no deadlock state, no step-budget overrun, no abort, bounded completion after the last fault, every worker exits after pool drop; probes confirm the racy windows (zero found without parking, parked-and-woken, stale token, woke with count > 0) were hit.",
    "trusted: dsim's park/unpark token model and channel-disconnect model; liveness is bounded (20 000 scheduling steps per run), not unbounded",
    SIM + "seeded schedule search + fault injection with bounded-liveness oracle (deadlock / lost wake-up / worker leak detection)", "§4.C07"),
  "C08": ("exploration",
-   "seeded search over T in 2..4 (..8 thorough) threads x 1-3 rounds x loop paths x schedules x panic plans (thread subset, phase gen|benched, call index); oracles over the global event order per round: all preparation and tally clears before any start timestamp, all end timestamps before any drop, per-thread allocation isolation, and termination with a panic on the caller (a deadlock is the violation) when any thread panics.",
+   "seeded search over T in 2..4 (..8 thorough) threads x 1-3 rounds x loop paths x schedules x panic plans (thread subset, phase gen|counter|benched|destructor, call index, optionally a second site); oracles over the global event order per round: all preparation and tally clears before any start timestamp, all end timestamps before any drop, per-thread allocation isolation, and termination with a panic on the caller (a deadlock is the violation) when any thread panics.",
    "trusted: dsim's Barrier model; hook H7 (tally_cleared probe)",
    SIM + "seeded schedule search + panic injection on thread subsets; global-order oracle over the recorded history, deadlock detection", "§4.C08"),
  "C09": ("fault_enumeration",
